@@ -268,8 +268,9 @@ class Repo:
 
     STDLIB = ("collections", "_collections_abc")
 
-    def __init__(self, root: str = "/repo"):
+    def __init__(self, root: str = "/repo", expand: bool = True):
         self.root = root
+        self.expansion: dict = {}
         self.src_root = os.path.join(root, "src")
         pkg_dir = os.path.join(self.src_root, PKG)
         if not os.path.isdir(pkg_dir):
@@ -301,6 +302,18 @@ class Repo:
             if not origin or not origin.endswith(".py") or not os.path.isfile(origin):
                 raise AnalysisError(f"stdlib source for {name} not found")
             self.modules[name] = Module(name, origin, external=True)
+        if expand and os.environ.get("VERIF_NO_EXPAND") != "1":
+            # normal form E1b: private helpers the analyser has no name for are expanded at their call sites (sa/inline.py);
+            # resolution needs an index, so one is built without the pass, its trees are rewritten and indexed again here
+            from .inline import expand_helpers
+
+            pre = Repo(root, expand=False)
+            self.expansion = expand_helpers(pre)
+            for name, m in self.modules.items():
+                if not m.external:
+                    m.tree = pre.modules[name].tree
+                    _inline_return_temporaries(m.tree)
+                    set_parents(m.tree)
         for m in self.modules.values():
             self._index_module(m)
         for m in self.modules.values():
@@ -590,6 +603,10 @@ class Repo:
         if f is None:
             raise AnalysisError(f"anchor function {key} not found")
         return f
+
+    def expanded_into(self, f: FuncInfo) -> set[str]:
+        """Keys of the private helpers whose bodies the normal form (sa/inline.py) expanded into f."""
+        return set(self.expansion.get("into", {}).get(f.key, ()))
 
     def find_func(self, key: str) -> FuncInfo | None:
         mod, _, local = key.partition(":")
